@@ -68,6 +68,45 @@ def replay_load(run, cases, trace_module, trace_cfg, build_features=("json",), v
     return summary, rejects, crashes
 
 
+def namespaced(cases):
+    """The same projects placed in the first of two namespaces (the second one holds an unrelated key).  The first unit of the
+    parser's result is then that namespace, so a family's trace specification applies unchanged (with NS=n1 for diagnostics)."""
+    def patch(node):
+        """foreign keys inside a namespaced project must name the namespace: `$t(k` -> `$t(n1:k`"""
+        t = node["t"]
+        if t == "str":
+            s, o, i = node["s"], [], 0
+            while i < len(s):
+                o.append(s[i])
+                if s[i:i + 3] == ["DOL", "t", "LP"]:
+                    o += ["t", "LP", "n", "1", "COLON"]
+                    i += 3
+                else:
+                    i += 1
+            return {"t": "str", "s": o}
+        if t == "map":
+            return {"t": "map", "e": [[k, patch(v)] for k, v in node["e"]]}
+        if t == "seq":
+            return {"t": "seq", "e": [patch(v) for v in node["e"]]}
+        return node
+    out = []
+    other = {"t": "map", "e": [["zz", {"t": "str", "s": ["o", "t", "h", "e", "r"]}]]}
+    for c in cases:
+        if c.get("mode") == "value":
+            continue
+        cfg = dict(c["cfg"])
+        cfg["namespaces"] = ["n1", "n2"]
+        files = []
+        for entry in c["files"]:
+            files.append([entry[0] + "/n1", patch(entry[1])])
+            files.append([entry[0] + "/n2", other])
+        d = dict(c)
+        d["cfg"] = cfg
+        d["files"] = files
+        out.append(d)
+    return out
+
+
 def _shrink(ev, limit=20000):
     s = json.dumps(ev)
     if len(s) <= limit:
